@@ -385,10 +385,11 @@ func (q anyQuery) pass(d c04lib.Doc) bool {
 }
 
 type runner struct {
-	r   *vh.Rng
-	o   *vh.Out
-	ac  allCase
-	sim *c04lib.Sim
+	r       *vh.Rng
+	o       *vh.Out
+	ac      allCase
+	sim     *c04lib.Sim
+	shrinks int
 }
 
 func (rn *runner) replayOf(q *anyQuery, what string) string {
@@ -771,25 +772,8 @@ func (rn *runner) history(dir string, nb, nq int) {
 			o.Fail("batch-rejected:"+jb.Kind, fmt.Sprintf("a valid %s batch was rejected: %v", jb.Kind, err), rn.replayOf(nil, "batch"))
 			return
 		}
-		refs := []shardRef{}
-		for _, v := range sim.Variants {
-			refs = append(refs, shardRef{name: v.Name, sh: v.Shard, own: v.Name != "live", nodes: c04lib.NodeIds(c04lib.DumpBucket(v.Shard, c04lib.PointsBucket))})
-		}
-		var closers []func()
-		for _, cs := range []struct {
-			name string
-			size int64
-		}{{"cold", -1}, {"cold-disabled", 0}, {"cold-tiny", 64}, {"cold-tiny-again", 64}} {
-			if cs.name == "cold-tiny-again" {
-				prev := refs[len(refs)-1]
-				refs = append(refs, shardRef{name: cs.name, sh: prev.sh, nodes: prev.nodes})
-				continue
-			}
-			sh, done := sim.OpenCopy(cs.size)
-			closers = append(closers, done)
-			refs = append(refs, shardRef{name: cs.name, sh: sh, nodes: refs[0].nodes})
-		}
-		// durability on the reopened copy: the point count
+		refs, closeRefs := refsFor(sim)
+		// durability on every shard and on the reopened copies: the point count
 		for _, ref := range refs {
 			info, err := ref.sh.Info()
 			if err != nil || int(info.PointCount) != len(sim.Order) {
@@ -797,12 +781,101 @@ func (rn *runner) history(dir string, nb, nq int) {
 			}
 		}
 		for _, q := range rn.genQueries(nq) {
+			before := len(o.Oracle)
 			rn.compareAll(q, refs)
+			if len(o.Oracle) > before && rn.shrinks < 2 {
+				rn.shrinks++
+				rn.shrink(o.Oracle[before].Signature, q, &o.Oracle[before])
+			}
 		}
+		closeRefs()
+	}
+}
+
+// refsFor: the shards that answer every query: [0] the live one, the separately run variants, and
+// fresh shards on a copy of the live file (cold, cache disabled, tiny cache asked twice)
+func refsFor(sim *c04lib.Sim) ([]shardRef, func()) {
+	refs := []shardRef{}
+	for _, v := range sim.Variants {
+		refs = append(refs, shardRef{name: v.Name, sh: v.Shard, own: v.Name != "live", nodes: c04lib.NodeIds(c04lib.DumpBucket(v.Shard, c04lib.PointsBucket))})
+	}
+	var closers []func()
+	for _, cs := range []struct {
+		name string
+		size int64
+	}{{"cold", -1}, {"cold-disabled", 0}, {"cold-tiny", 64}, {"cold-tiny-again", 64}} {
+		if cs.name == "cold-tiny-again" {
+			prev := refs[len(refs)-1]
+			refs = append(refs, shardRef{name: cs.name, sh: prev.sh, nodes: prev.nodes})
+			continue
+		}
+		sh, done := sim.OpenCopy(cs.size)
+		closers = append(closers, done)
+		refs = append(refs, shardRef{name: cs.name, sh: sh, nodes: refs[0].nodes})
+	}
+	return refs, func() {
 		for _, c := range closers {
 			c()
 		}
 	}
+}
+
+func (rn *runner) stillFails(ac allCase, q anyQuery, sig string) (bad bool) {
+	defer func() {
+		if r := recover(); r != nil {
+			bad = false
+		}
+	}()
+	tmp, err := os.MkdirTemp("", "c08s-")
+	if err != nil {
+		return false
+	}
+	defer os.RemoveAll(tmp)
+	sim := c04lib.NewSim(tmp, schemaAll(ac.Cfgs), []string{"live", "disabled", "evicting", "lru", "mem"})
+	defer sim.Close()
+	for _, jb := range ac.Batches {
+		if _, _, err := sim.Apply(jb.toBatch()); err != nil {
+			return false
+		}
+	}
+	sb := &runner{r: vh.NewRng(1), o: vh.NewOut(tmp + "/out"), ac: ac, sim: sim, shrinks: 99}
+	refs, closeRefs := refsFor(sim)
+	defer closeRefs()
+	sb.compareAll(q, refs)
+	for _, f := range sb.o.Oracle {
+		if f.Signature == sig {
+			return true
+		}
+	}
+	return false
+}
+
+func (rn *runner) shrink(sig string, q anyQuery, f *vh.OracleFailure) {
+	cur := allCase{Cfgs: rn.ac.Cfgs, Batches: append([]jBatch{}, rn.ac.Batches...)}
+	if !rn.stillFails(cur, q, sig) {
+		return
+	}
+	for i := len(cur.Batches) - 1; i >= 0; i-- {
+		cand := allCase{Cfgs: cur.Cfgs, Batches: append(append([]jBatch{}, cur.Batches[:i]...), cur.Batches[i+1:]...)}
+		if rn.stillFails(cand, q, sig) {
+			cur = cand
+		}
+	}
+	for bi := len(cur.Batches) - 1; bi >= 0; bi-- {
+		for ci := len(cur.Batches[bi].Changes) - 1; ci >= 0 && len(cur.Batches[bi].Changes) > 1; ci-- {
+			cand := allCase{Cfgs: cur.Cfgs, Batches: append([]jBatch{}, cur.Batches...)}
+			nb := cand.Batches[bi]
+			nb.Changes = append(append([]jChange{}, nb.Changes[:ci]...), nb.Changes[ci+1:]...)
+			cand.Batches[bi] = nb
+			if rn.stillFails(cand, q, sig) {
+				cur = cand
+			}
+		}
+	}
+	save := rn.ac
+	rn.ac = cur
+	f.Replay = rn.replayOf(&q, fmt.Sprintf("shrunk from %d batches", len(save.Batches)))
+	rn.ac = save
 }
 
 func main() {
